@@ -229,6 +229,7 @@ func check(c Case, r *vh.R) {
 	tm := c.Tamper
 	r.Class("tamper:" + tm.Kind)
 	changed := false
+	sigAppended := false
 	pick := func() int {
 		// prefer a covered exchange
 		var cov []int
@@ -314,6 +315,18 @@ func check(c Case, r *vh.R) {
 				changed = true
 			}
 		}
+	case "sig-append":
+		// octets appended after the complete DER signature (a second SEQUENCE, or a single byte)
+		if target.Signatures != nil && len(target.Signatures.VouchedSubsets) > 0 {
+			vs := target.Signatures.VouchedSubsets[((tm.Ex%len(target.Signatures.VouchedSubsets))+len(target.Signatures.VouchedSubsets))%len(target.Signatures.VouchedSubsets)]
+			extra := []byte{byte(tm.Bit)}
+			if tm.N%2 == 0 {
+				extra = append([]byte{}, vs.Sig...)
+			}
+			vs.Sig = append(append([]byte{}, vs.Sig...), extra...)
+			changed = true
+			sigAppended = true
+		}
 	case "authority":
 		if target.Signatures != nil && len(target.Signatures.VouchedSubsets) > 0 && len(target.Signatures.Authorities) > 1 {
 			vs := target.Signatures.VouchedSubsets[((tm.Ex%len(target.Signatures.VouchedSubsets))+len(target.Signatures.VouchedSubsets))%len(target.Signatures.VouchedSubsets)]
@@ -373,6 +386,12 @@ func check(c Case, r *vh.R) {
 		if !changed && inWindow && !tooLong {
 			r.Failf("untampered-rejected", "NewVerifier rejects an untampered bundle at t=%d inside [%d,%d]: %v", t, s0, e0, err)
 		}
+		return
+	}
+	if sigAppended {
+		// "any change to ... the signature bytes ... makes verification fail" (the shared ECDSA verifier
+		// refuses trailing data after the DER signature)
+		r.Failf("accepted-extended-signature", "NewVerifier accepted a vouched subset whose signature bytes were extended by trailing octets (tamper %+v)", tm)
 		return
 	}
 	// the verifier was created: the window and the 7-day cap must hold for every subset
@@ -544,7 +563,7 @@ func TestPropSignatures(t *testing.T) {
 			c.Signers[rapid.IntRange(0, ns-1).Draw(t, "longidx")].Duration = rapid.SampledFrom([]int64{7*24*3600 + 1, 8 * 24 * 3600}).Draw(t, "long")
 		default:
 			c.Tamper = Tamper{
-				Kind:  rapid.SampledFrom([]string{"body-flip", "body-trunc", "body-extend", "status", "hdr-add", "hdr-remove", "hdr-edit", "reencode", "signed-flip", "sig-flip", "authority", "auth-swap", "auth-samekey-cert"}).Draw(t, "tamper"),
+				Kind:  rapid.SampledFrom([]string{"body-flip", "body-trunc", "body-extend", "status", "hdr-add", "hdr-remove", "hdr-edit", "reencode", "signed-flip", "sig-flip", "sig-append", "authority", "auth-swap", "auth-samekey-cert"}).Draw(t, "tamper"),
 				Ex:    rapid.IntRange(0, 20).Draw(t, "ex"),
 				Pos:   rapid.IntRange(0, 1<<16).Draw(t, "pos"),
 				Bit:   rapid.IntRange(0, 7).Draw(t, "bit"),
